@@ -27,7 +27,7 @@ func init() {
 		Level: "fault_enumeration",
 		Rule: "for every corpus frame and EVERY cut offset k in [0,len): the scripted reader delivers exactly the first k bytes and then ends the stream (io.EOF) or fails with a fresh error value E; " +
 			"the delivered prefix is fragmented by every schedule with at most 2 (quick) / 3 (thorough) non-default Read answers (short read, zero read, last chunk delivered together with the error). " +
-			"Every (frame, cut, kind) is repeated, with one deviation less, through eight further reader implementations over the scripted source or holding the prefix (bufio.Reader 16/4096/pre-filled, a reader of its own type with ReadByte/Peek/Discard/WriteTo, io.LimitedReader, bytes.Buffer, bytes.Reader, strings.Reader) and with four further shapes of E (wrapping io.EOF, wrapping io.ErrUnexpectedEOF, a net.Error-like value whose Timeout() and Temporary() are true, wrapping io.ErrShortWrite, a slice-typed error) and with opaque errors whose text is what real transports say (EOF, unexpected EOF, use of closed network connection, i/o timeout, connection reset by peer, websocket close 1000/1006, tls: bad record MAC, context canceled) or a string constant that is new in the tree under test; a net.Conn double among the readers. Frames above 300 bytes run with one deviation less. " +
+			"Every (frame, cut, kind) is repeated, with one deviation less, through eight further reader implementations over the scripted source or holding the prefix (bufio.Reader 16/4096/pre-filled, a reader of its own type with ReadByte/Peek/Discard/WriteTo, io.LimitedReader, bytes.Buffer, bytes.Reader, strings.Reader) and with four further shapes of E (wrapping io.EOF, wrapping io.ErrUnexpectedEOF, a net.Error-like value whose Timeout() and Temporary() are true, wrapping io.ErrShortWrite, a slice-typed error), with every shape also as a transient failure (E once, the rest of the frame on the calls after it: no packet may come of it) and with opaque errors whose text is what real transports say (EOF, unexpected EOF, use of closed network connection, i/o timeout, connection reset by peer, websocket close 1000/1006, tls: bad record MAC, context canceled) or a string constant that is new in the tree under test; a net.Conn double among the readers. Frames above 300 bytes run with one deviation less. " +
 			"Big frames (PUBLISH with 70 000, 140 000, 300 000 and 1.3 M bytes of payload, and frames sized by the integer constants of the tree under test): cuts around the header, around every power-of-two multiple of 512/1000/4096/65536 and of the mined constants counted from the frame and from the body start, x {EOF, E} x {error on its own call, error together with the last bytes} x {one delivery, 4 KiB and 64 KiB segments} x {scripted source, bufio}. " +
 			"Every frame of the valid corpus V (~2.7k frames) is cut at every offset as well, with 0 (quick) / 1 (thorough) further deviations. Required: nil packet and non-nil error; errors.Is(err,E) whenever the reader returned E; errors.Is(err,io.EOF) for k=0 with EOF. " +
 			"distinct_nontrivial = distinct (frame, k, kind, schedule) with k>0 (the fault strikes inside the frame).",
@@ -45,6 +45,9 @@ func init() {
 type c08Var struct {
 	RK env.Kind
 	EK env.ErrKind
+	// Transient: the failure is returned once and the source would deliver
+	// the rest of the frame to a caller that reads on regardless
+	Transient bool
 }
 
 func c08Exec(name string, frame []byte, k int, kind env.EndKind, choices []int, v c08Var) *core.Finding {
@@ -60,6 +63,9 @@ func c08Exec(name string, frame []byte, k int, kind env.EndKind, choices []int, 
 func c08Once(name string, frame []byte, k int, kind env.EndKind, c *explore.Chooser, E error, log bool, v c08Var) (*core.Finding, *env.Reader) {
 	resetGlobals()
 	r := &env.Reader{Data: frame[:k], End: kind, E: E, C: c, MaxZero: 1, Log: log}
+	if v.Transient {
+		r.Rest = append([]byte{}, frame[k:]...)
+	}
 	p, err, res := readPacket(env.Wrap(v.RK, r), stepBudget(len(frame)))
 	where := "body"
 	if k < 2 {
@@ -68,6 +74,9 @@ func c08Once(name string, frame []byte, k int, kind env.EndKind, c *explore.Choo
 	kindS := "eof"
 	if kind == env.EndErr {
 		kindS = "err:" + v.EK.String()
+	}
+	if v.Transient {
+		kindS += "+transient"
 	}
 	mk := func(class, what string) *core.Finding {
 		return &core.Finding{Class: class + "/" + kindS + "/" + where + "/" + v.RK.String(),
@@ -79,6 +88,8 @@ func c08Once(name string, frame []byte, k int, kind env.EndKind, c *explore.Choo
 		return mk("panic", "panic: "+res.Panic), r
 	case res.Budget:
 		return mk("nontermination", "step budget exceeded"), r
+	case p != nil && v.Transient:
+		return mk("failure-swallowed", fmt.Sprintf("the reader failed with E (%v) after %d of %d bytes and ReadPacket read on and returned packet %q (err=%v)", E, k, len(frame), clip(safeString(p), 80), err)), r
 	case p != nil:
 		return mk("packet-from-partial-frame", fmt.Sprintf("returned packet %q (err=%v) although only %d of %d bytes were delivered", clip(safeString(p), 80), err, k, len(frame))), r
 	case err == nil:
@@ -145,6 +156,11 @@ func c08Variants(kind env.EndKind) []c08Var {
 		for i := range env.ErrTexts {
 			vs = append(vs, c08Var{RK: env.KRaw, EK: env.NErrKinds + env.ErrKind(i)})
 		}
+		// a failure that is over by the next call (a read deadline, an
+		// interrupted call): every shape of E, directly and through bufio
+		for ek := env.EPlain; ek < env.NErrKinds; ek++ {
+			vs = append(vs, c08Var{RK: env.KRaw, EK: ek, Transient: true}, c08Var{RK: env.KBufio4096, EK: ek, Transient: true})
+		}
 	}
 	return vs
 }
@@ -194,7 +210,7 @@ func runC08(x *core.Ctx) {
 						if b--; b < 0 {
 							b = 0
 						}
-						if !v.RK.Scripted() || v.EK >= env.NErrKinds {
+						if !v.RK.Scripted() || v.EK >= env.NErrKinds || v.Transient {
 							// (what an error says matters to what the decoder does with
 							// it, not to how the prefix before it was fragmented)
 							b = 0
@@ -204,15 +220,15 @@ func runC08(x *core.Ctx) {
 					e := &explore.Explorer{Bound: b}
 					e.Run = func(c *explore.Chooser) bool {
 						fd, _ := c08Once(f.Name, f.B, k, kind, c, E, false, v)
-						x.Eval(fmt.Sprintf("bound%d.%s.%s", b, v.RK, v.EK))
+						x.Eval(fmt.Sprintf("bound%d.%s.%s%s", b, v.RK, v.EK, map[bool]string{true: ".transient"}[v.Transient]))
 						if k > 0 {
 							taken := c.Taken()
-							x.Distinct(core.HashInts(fmt.Sprintf("%s/%d/%d/%d/%d", f.Name, k, kind, v.RK, v.EK), taken))
+							x.Distinct(core.HashInts(fmt.Sprintf("%s/%d/%d/%d/%d/%v", f.Name, k, kind, v.RK, v.EK, v.Transient), taken))
 						}
 						if fd != nil {
 							taken := c.Taken()
 							x.Report(c08Exec(f.Name, f.B, k, kind, taken, v), func() core.Case {
-								return core.Case{Harness: "c08", Frame: hexOf(f.B), Choices: taken, Params: map[string]any{"k": k, "kind": int(kind), "name": f.Name, "reader": int(v.RK), "errkind": int(v.EK)}}
+								return core.Case{Harness: "c08", Frame: hexOf(f.B), Choices: taken, Params: map[string]any{"k": k, "kind": int(kind), "name": f.Name, "reader": int(v.RK), "errkind": int(v.EK), "transient": v.Transient}}
 							}, func() *core.Finding { return c08Exec(f.Name, f.B, k, kind, taken, v) })
 						}
 						return !x.Expired()
@@ -364,5 +380,6 @@ func replayC08(c core.Case) *core.Finding {
 		return nil
 	}
 	v := c08Var{RK: env.Kind(paramInt(c.Params, "reader")), EK: env.ErrKind(paramInt(c.Params, "errkind"))}
+	v.Transient, _ = c.Params["transient"].(bool)
 	return c08Exec(paramStr(c.Params, "name"), unhex(c.Frame), paramInt(c.Params, "k"), env.EndKind(paramInt(c.Params, "kind")), c.Choices, v)
 }
